@@ -365,4 +365,66 @@ def createNamed (own kind variant : String) (parent : List Char) (v : Val) : Res
     | .error e => .error e
     | .ok _ => pure s
 
+/-! ### A kept sliver object over a history of setter calls, and its property dictionary
+
+One sliver object is kept while a caller applies any sequence of `set_name` / `set_boot_script` calls to it (directly, through
+`set_property` or the bulk `set_properties` - they dispatch to the same setters), some of them refused. What the object then
+holds is what `base_sliver_to_graph_properties_dict` writes out and `set_base_sliver_properties_from_graph_properties_dict`
+has to take back. The two facts about the code this depends on are generated by behavioural probes
+(`Gen.Validators.writeFirst`: setters that assign before they check; `Gen.Validators.decodeAlters`: member words the decoder
+does not hand to the setter as they are, e.g. a placeholder word such as "None" taken for "no value"). The model is written
+over an arbitrary `KeptCfg`, so it says what happens when either list is not empty. -/
+
+structure KeptCfg where
+  writeFirst : List String
+  decodeAlters : List String
+  deriving Repr
+
+/-- the configuration of the code as it is (regenerated every run) -/
+def repoKept : KeptCfg := ⟨Gen.Validators.writeFirst, Gen.Validators.decodeAlters⟩
+
+/-- `resource_name` and `boot_script` of one sliver object: any Python value (a setter that assigns first can leave anything) -/
+structure Sliver where
+  cls : String
+  name : Val
+  boot : Val
+  deriving Repr, DecidableEq
+
+inductive SetOp where
+  | name (v : Val)
+  | boot (v : Val)
+  deriving Repr, DecidableEq
+
+def optVal : Option (List Char) → Val
+  | none => .none
+  | some s => .str s
+
+def stepSliver (cfg : KeptCfg) (s : Sliver) : SetOp → Sliver
+  | .name v =>
+    match setName s.cls v with
+    | .ok n => { s with name := .str n }
+    | .error _ => if cfg.writeFirst.contains "set_name" then { s with name := v } else s
+  | .boot v =>
+    match setBoot v with
+    | .ok b => { s with boot := optVal b }
+    | .error _ => if cfg.writeFirst.contains "set_boot_script" then { s with boot := v } else s
+
+def runSliver (cfg : KeptCfg) (s : Sliver) (ops : List SetOp) : Sliver := ops.foldl (stepSliver cfg) s
+
+/-- the decoder's view of one text property: absent, or the text - unless the text is one of the altered words -/
+def decodeText (cfg : KeptCfg) : Val → Val
+  | .str w => if cfg.decodeAlters.contains (String.ofList w) then .none else .str w
+  | v => v
+
+/-- encode (only what is not None is written; texts as they are), then decode into a fresh sliver of the class:
+`set_properties(name=d.get(Name), ..., boot_script=d.get(BootScript))` -/
+def reDecode (cfg : KeptCfg) (s : Sliver) : Res Sliver :=
+  match setName s.cls (decodeText cfg s.name) with
+  | .error e => .error e
+  | .ok n =>
+    match setBoot (decodeText cfg s.boot) with
+    | .error e => .error e
+    | .ok b => pure ⟨s.cls, .str n, optVal b⟩
+
+
 end FimVerif.V16
